@@ -70,6 +70,15 @@ def check_human(ctx, backend, kw):
         for ch in k + val:
             if ord(ch) > 127 and ch.isprintable():
                 ctx.check(ch in R["query"], "printable non-ASCII query text is not shown literally", observed=dict(info, char=ch), expected="literal", entry="readable")
+    rh = u.raw_host or ""
+    if "xn--" in rh and ":" not in rh:
+        # reference decoding of the A-labels (stdlib IDNA codec, label by label); where it succeeds the decoded text must be what is shown
+        try:
+            ref_dec = ".".join((lab.encode("ascii").decode("punycode") if False else lab.encode("ascii").decode("idna")) for lab in rh.split("."))
+        except UnicodeError:
+            ref_dec = None
+        if ref_dec is not None and "xn--" not in ref_dec:
+            ctx.check("xn--" not in (host or ""), "human_repr() shows the IDN host in its encoded (punycode) form", observed=dict(info, shown=host, raw_host=rh), expected=ref_dec, entry="host")
     uh = u.host or ""
     shown = "[%s]" % uh if ":" in uh else uh
     ctx.check((host or "") == uh and shown in h, "human_repr() does not show the decoded host", observed=dict(info, shown=host, host=uh), expected=uh, entry="host")
